@@ -108,6 +108,16 @@ def run_case(case, ctx):
     ctx.cls("classifier" if clf else "regressor")
     K = "C08/%s/" % ("classifier" if clf else "regressor")
     Xin = pandas.DataFrame(X, columns=["f%d" % i for i in range(d)]) if frame else X
+    # targets / weights as pandas Series whose integer index is a permutation of the positions (columns of
+    # df.sample(frac=1)): selection by position and selection by label differ there
+    ycont = ["ndarray", "ndarray", "ndarray", "series-shuffled-index", "ndarray", "series-default-index"][(sub // 3) % 6]
+    cfg["y_container"] = ycont
+    ctx.cls("y_container=" + ycont)
+    yin, win = y, w
+    if ycont != "ndarray":
+        ix = numpy.random.RandomState(sub + 77).permutation(n) if ycont == "series-shuffled-index" else numpy.arange(n)
+        yin = pandas.Series(y, index=ix)
+        win = None if w is None else pandas.Series(w, index=ix)
 
     def new(n_jobs):
         if clf:
@@ -118,7 +128,7 @@ def run_case(case, ctx):
 
     def fit(m):
         numpy.random.seed(rs)
-        return m.fit(Xin, y) if w is None else m.fit(Xin, y, sample_weight=w)
+        return m.fit(Xin, yin) if w is None else m.fit(Xin, yin, sample_weight=win)
 
     # query batch: training rows, perturbed rows, far rows (unseen cells for discretisers)
     spread = float(numpy.abs(X).max())
